@@ -8,6 +8,7 @@ pub fn run_case(case: &Case, cx: &mut Ctx) {
     match case.engine {
         Engine::MapHist => mmv_maphist::run_dyn(case, cx),
         Engine::SetHist => mmv_sethist::run_dyn(case, cx),
+        Engine::SetAlg | Engine::MapEq => mmv_pairs::run_dyn(case, cx),
         _ => {}
     }
 }
